@@ -559,11 +559,13 @@ def ref_impedance(pos, solimp):
   lo, hi = 1e-4, 0.9999
   dmin, dmax = min(max(solimp[0], lo), hi), min(max(solimp[1], lo), hi)
   width, mid, power = max(1e-15, solimp[2]), min(max(solimp[3], lo), hi), max(1.0, solimp[4])
+  if dmin == dmax or solimp[2] <= 1e-15:
+    return 0.5 * (dmin + dmax)  # flat impedance (mj getimpedance)
   x = abs(pos) / width
   if x > 1.0:
     return dmax
   y = (1.0 / mid ** (power - 1)) * x**power if x < mid else 1.0 - (1.0 / (1 - mid) ** (power - 1)) * (1 - x) ** power
-  return min(max(dmin + y * (dmax - dmin), dmin), dmax)
+  return dmin + y * (dmax - dmin)
 
 
 def validate_impedance(seed):
@@ -603,7 +605,15 @@ def unit_efc_row(ctx):
   imp, iw = it.top_frame.env["imp"], args["invweight"]
   D = args["D_out"].cell.d[0][0]
   MINVAL, MINIMP, MAXIMP = [z3.RealVal(repr(float(v))) for v in (types.MJ_MINVAL, types.MJ_MINIMP, types.MJ_MAXIMP)]
-  sess = ctx.session([core.zbool(a) for a in it.assumes])
+  # real-analysis facts about the power-law interpolant (pow is uninterpreted): for power >= 1, 0 < mid < 1,
+  #   0 <= x < mid   =>  x^p / mid^(p-1)         = x ((x/mid)^(p-1))             in [0, 1]
+  #   mid <= x <= 1  =>  (1-x)^p / (1-mid)^(p-1) = (1-x) (((1-x)/(1-mid))^(p-1)) in [0, 1]
+  # (the code does not clamp the interpolated impedance, like MuJoCo; its range rests on these facts)
+  env = it.top_frame.env
+  x_, mid_, ya, yb = env["imp_x"], env["mid"], env["imp_a"], env["imp_b"]
+  powfacts = [z3.Implies(z3.And(x_ >= 0, x_ < mid_), z3.And(ya >= 0, ya <= 1)), z3.Implies(z3.And(x_ >= mid_, x_ <= 1), z3.And(yb >= 0, yb <= 1))]
+  ctx.assume("power-law interpolant y(x) lies in [0, 1] for 0 <= x <= 1 (power >= 1, 0 < mid < 1): real-analysis fact about pow, not decided by the solver")
+  sess = ctx.session([core.zbool(a) for a in it.assumes] + powfacts)
   ctx.reach(sess, "twin:clamp-inactive", D * MINVAL < 1)
   names = {"invweight": iw, "pos_imp": args["pos_imp"], "D": D}
   rp = lambda nm, what: efc_row_replay(ctx, nm, args, what)
